@@ -20,6 +20,9 @@ def run(tier):
     sd = os.path.join(SPECS, "flat")
     exe = targets.get("h_drv")
     gen, gres = cvtcases.generate()
+    # SOS membership given by suffixes is not among the things C07's statement lists
+    # (bounds, integrality, algebraic and logical constraints): those models are left to C01
+    gen = [g_ for g_ in gen if g_["kind"] != "sos"]
     cfgs, acc = cvtcases.configs(exe)
     native = [c for c in cfgs if c[0] in ("native", "native-nocones")] + [("native-nopre", ["cvt:pre:all=0"]), ("native-noeq", ["cvt:pre:eqresult=0", "cvt:pre:eqbinary=0"])]
     n = 2400 if tier == "thorough" else 320
